@@ -335,7 +335,7 @@ func (w *World) Run(x *simkit.Ctx) {
 					}
 				}
 			}
-			if prop == "C06" && e.crashDeliveries < maxCrashDeliv && r.Chance(crashPct, 100) {
+			if (prop == "C06" || (prop == "C18" && r.Chance(1, 3))) && e.crashDeliveries < maxCrashDeliv && r.Chance(crashPct, 100) {
 				return &simkit.Step{Op: "cdeliver", A: a, B: -1}
 			}
 			return &simkit.Step{Op: "deliver", A: a, B: r.Intn(3)}
@@ -1269,7 +1269,32 @@ func (e *env) crashTrial(post *simdisk.Snap, k, torn int, kind string, allowed m
 	}
 	// feeding the same blocks again reaches the fault-free final state
 	simclock.Set(e.net.Start.Add(time.Duration(e.slot+3) * time.Second))
+	// In a third of the trials a corrupting relay is faster than the genuine sender: before each
+	// genuine block the restarted node (its negative cache is empty again) is shown a copy with the
+	// genuine header and an altered body. It must not be written anywhere nor keep the genuine block out.
+	relay := (k+torn)%3 == 0
 	for _, m := range e.path(postBest) {
+		if relay {
+			c := simnode.CloneBlock(e.blocks[m].b)
+			if len(c.Body.Txs) > 0 {
+				c.Body.Txs = c.Body.Txs[:len(c.Body.Txs)-1]
+			} else {
+				t := simnode.SignedTx(e.net.Accounts[0], 999, e.net.Accounts[0].Addr, big.NewInt(1), types.TxType_TRANSFER, nil, []byte("x"), 0)
+				c.Body.Txs = append(c.Body.Txs, t)
+			}
+			x.Fault("altered-copy-before-genuine-after-restart")
+			pan := catch(func() { _ = n.AddBlock(c, "relay") })
+			if pan != "" {
+				x.Fail("C06", "node-died-after-recovery", sig, fmt.Sprintf("an altered copy of block %d after recovery killed the node: %s", m, pan), e.step)
+				return
+			}
+			var stored *types.Block
+			n.Do(func() { stored, _ = n.CS.GetBlock(e.blocks[m].b.BlockHash()) })
+			if stored != nil && len(stored.GetBody().GetTxs()) != len(e.blocks[m].b.GetBody().GetTxs()) {
+				x.Fail("C18", "malformed-block-changed-node", "altered-body-genuine-id/after-restart", fmt.Sprintf("crash before write unit %d (torn %d) of a %s, restart, then a copy of block %d with the genuine header and an altered body: the node now stores the altered body (%d txs) under the genuine identifier (genuine: %d txs)", k, torn, kind, m, len(stored.GetBody().GetTxs()), len(e.blocks[m].b.GetBody().GetTxs())), e.step)
+				return
+			}
+		}
 		pan := catch(func() { _ = n.AddBlock(e.blocks[m].b, "peer") })
 		if pan != "" {
 			x.Fail("C06", "node-died-after-recovery", sig, fmt.Sprintf("re-feeding block %d after recovery killed the node: %s", m, pan), e.step)
